@@ -320,6 +320,23 @@ func checkC04(c *Check) {
 				report(fmt.Sprintf("%s round trip of %s (%s) changes the value: %s became %s; document %q", format, gc.T, gc.VC, want, got, printable(doc)))
 				continue
 			}
+			// the stream entry point fed by a reader that delivers 1-3 bytes at a time
+			var sback interface{}
+			var serr error
+			p, hung = runWithWatchdog(watchdogShort, func() {
+				if format == "cbe" {
+					sback, serr = ce.UnmarshalCBE(&shortReader{data: doc}, tmpl, cfg)
+				} else {
+					sback, serr = ce.UnmarshalCTE(&shortReader{data: doc}, tmpl, cfg)
+				}
+			})
+			if bv := reflect.ValueOf(sback); bv.IsValid() && bv.Kind() == reflect.Ptr && !bv.IsNil() && bv.Type().Elem() == v.Type() {
+				sback = bv.Elem().Interface()
+			}
+			if sgot := absValueO(sback, valAbsOpts{NilIsEmpty: true, ByValue: true}); p != nil || hung || serr != nil || sgot != want {
+				report(fmt.Sprintf("%s round trip of %s (%s) through a reader delivering 1-3 bytes at a time: %v %v hang=%v; %s became %s", format, gc.T, gc.VC, serr, p, hung, want, sgot))
+				continue
+			}
 			c.AddTraces(1)
 			if len(doc) > 20 {
 				c.Sample(map[string]interface{}{"type": gc.T.String(), "class": gc.VC, "format": format, "doc": printable(doc)})
